@@ -274,8 +274,11 @@ func (l *lexer) acceptWS() {
 			}
 		} else if strings.HasPrefix(l.input[l.pos:], str_comment_inline_start) {
 			for {
-				l.next()
-				if l.input[l.pos] == '\n' {
+				// a line comment may end the input without a line feed
+				if l.next() == eof {
+					break
+				}
+				if l.pos < len(l.input) && l.input[l.pos] == '\n' {
 					l.pos++
 					break
 				}
